@@ -1251,7 +1251,11 @@ def ext_call(it, dotted, args, kw):
             for x in parts:
                 cols += [c for c in x.cols if c not in cols]
             n = sum(x.n for x in parts)
-            return DF({c: Vec([v for x in parts for v in (x.cols[c].v if c in x.cols else [None] * x.n)]) for c in cols}, n)
+            out = DF({c: Vec([v for x in parts for v in (x.cols[c].v if c in x.cols else [None] * x.n)], aligned=True) for c in cols}, n)
+            # without ignore_index the parts' labels repeat: label-aligned stores into the result are hazards
+            out.index = "range" if (kw.get("ignore_index") is True or len(parts) == 1) else "any"
+            out.exact = all(getattr(x, "exact", False) for x in parts)
+            return out
         if parts and all(isinstance(x, Vec) for x in parts) and kw.get("axis", 0) == 0:
             return Vec([v for x in parts for v in x.v])
         return Opaque("mixed:concat")
